@@ -2,10 +2,11 @@
 
 (a) duplicates inside one experiment, (b) success markers left by an earlier
 experiment run, on the real scheduler over the deterministic environment.
-Clause (c) (several schedulers racing on one workspace) is checked through
-the job lock shared by the scheduler side and the task runner: see C11's
-two-run harness for the sequential case; concurrent schedulers are outside
-this round (stated in the evidence).
+Clause (c) is checked on the task side, where the last guard is: two or
+three processes of the same job script run the real TaskRunner.run (turned
+into a coroutine that yields where a process blocks on the job lock or runs
+the task body) under a symbolic interleaving; whether two schedulers can be
+brought to launch the same job twice is not modelled (stated in the evidence).
 """
 
 from xv import rt
@@ -18,7 +19,7 @@ SHARD: dict = {}
 INFO = {
     "functions": [
         "scheduler/base.py:Scheduler.submit/aio_registerJob", "core/objects.py:ConfigInformation.submit (cached task output)", "scheduler/base.py:Scheduler.aio_submit (done marker short-circuit)",
-        "commandline.py:CommandLineJob.aio_process/aio_run", "scheduler/base.py:experiment.__enter__/__exit__",
+        "commandline.py:CommandLineJob.aio_process/aio_run", "scheduler/base.py:experiment.__enter__/__exit__", "run.py:TaskRunner.run/cleanup (coroutine form, overlapping processes)",
     ],
     "bounds": {
         "quick": {"jobs": "<=3", "duplicate_submissions": "<=2 (any position, interleaved with the schedule)", "prior_runs": "one earlier experiment run with a symbolic subset of the jobs", "schedule_choice_points": 4},
@@ -27,12 +28,16 @@ INFO = {
     "stubs": schedlib.STUBS,
     "symbolic_data": True,
     "assumptions": ["exit codes symbolic", "the earlier run ends before the later one starts (sequential experiments; a process still running at restart is C11's subject)"],
-    "outside": schedlib.OUTSIDE + ["two schedulers submitting the same job concurrently (clause c): not modelled in this round"],
+    "outside": schedlib.OUTSIDE + ["the scheduler-side part of clause (c): whether two schedulers can both launch the same job (the check assumes they can and verifies the task-side guard: lock, then success-marker test)"],
 }
 
 
 def setup(mode):
+    import logging
+
     schedlib.setup(mode)
+    logging.disable(logging.CRITICAL)
+    _coroutine_modules()
 
 
 def duplicates(
@@ -169,5 +174,180 @@ def conditions(tier):
     for sh in ("one", "chain2", "chain3", "fork3", "join3"):
         c = {"name": f"prior/{sh}", "func": "prior_run", "shard": {"shape": sh, "K": K}, "timeout": tmo}
         conds.extend(schedlib.with_prefixes(c, 2) if sh in ("fork3", "join3") else [c])
+    conds.append({"name": "overlap/two", "func": "overlap", "shard": {"procs": 2}, "timeout": tmo})
+    conds.append({"name": "overlap/three", "func": "overlap", "shard": {"procs": 3}, "timeout": tmo})
     conds.append({"name": "prior/chain2-other-experiment", "func": "prior_run", "shard": {"shape": "chain2", "K": K, "first_name": "earlier"}, "timeout": tmo})
     return conds
+
+
+# ---------------------------------------------------------------- clause (c), task side: overlapping launches of one job script
+
+
+class _P:
+    """One job process running the real TaskRunner.run in coroutine form"""
+
+    def __init__(self, pid, M, locks, script):
+        self.pid, self.M, self.locks = pid, M, locks
+        self.state = "new"  # new / blocked / body / exited
+        self.gen = None
+        self.pending_lock = None
+        self.atexit = []
+        self.status = None
+        proc = self
+
+        class FakeLock:
+            def __init__(self, path):
+                self.path = str(path)
+                self.acquired = False
+
+            def release(self):
+                if proc.locks.get(self.path) == proc.pid:
+                    del proc.locks[self.path]
+                self.acquired = False
+
+        class FakeFasteners:
+            InterProcessLock = FakeLock
+
+        class FakeSignal:
+            SIGTERM, SIGINT = 15, 2
+
+            @staticmethod
+            def signal(s, h):
+                return None
+
+        class FakeAtexit:
+            @staticmethod
+            def register(f):
+                proc.atexit.append(f)
+
+            @staticmethod
+            def unregister(f):
+                proc.atexit = [g for g in proc.atexit if g != f]
+
+        class FakeOs:
+            chdir = staticmethod(lambda p: None)
+            getpid = staticmethod(lambda: pid)
+            register_at_fork = staticmethod(lambda **kw: None)
+
+        M.__dict__.update(fasteners=FakeFasteners, signal=FakeSignal, atexit=FakeAtexit, os=FakeOs, report_eoj=lambda: None)
+        self.runner = M.TaskRunner(str(script), [str(script.with_suffix(".lock"))])
+
+    def _drive(self, send=None, throw=None):
+        """Advances the runner to its next blocking point"""
+        try:
+            if self.gen is None:
+                self.gen = self.runner.run()
+                req = next(self.gen)
+            elif throw is not None:
+                req = self.gen.throw(throw)
+            else:
+                req = self.gen.send(send)
+        except StopIteration:
+            return self._end(0)
+        except SystemExit as e:
+            return self._end(e.code if isinstance(e.code, int) else 1)
+        except Exception:
+            return self._end(1)
+        if req[0] == "acquire":
+            self.state, self.pending_lock = "blocked", req[1]
+        else:
+            self.state = "body"
+
+    def _end(self, status):
+        for f in list(reversed(self.atexit)):
+            try:
+                f()
+            except SystemExit:
+                pass
+        for p in [p for p, o in self.locks.items() if o == self.pid]:
+            del self.locks[p]
+        self.state, self.status = "exited", status
+
+    def can_step(self):
+        if self.state == "new" or self.state == "body":
+            return True
+        if self.state == "blocked":
+            o = self.locks.get(self.pending_lock.path)
+            return o is None or o == self.pid
+        return False
+
+    def step(self, outcome):
+        if self.state == "new":
+            self._drive()
+        elif self.state == "blocked":
+            self.locks[self.pending_lock.path] = self.pid
+            self.pending_lock.acquired = True
+            self._drive(send=True)
+        elif self.state == "body":
+            if outcome == 0:
+                self._drive(send=None)
+            else:
+                self._drive(throw=ValueError("task failed"))
+
+
+def overlap(pre_done: bool, o1: int, o2: int, o3: int, s0: int, s1: int, s2: int, s3: int, s4: int, s5: int, s6: int, s7: int, s8: int) -> bool:
+    """Two (or three) processes of the same job script, started at any time
+    relative to each other: the task body never runs twice at the same time
+    and is not run again after it succeeded.
+
+    post: _
+    """
+    from xv.harness import c10_markers as M10
+
+    n = SHARD.get("procs", 2)
+    root = rt.scratch_dir()
+    with rt._notrace():
+        (root / "job").mkdir(parents=True)
+        script = root / "job" / "task.py"
+        done = script.with_suffix(".done")
+        if pre_done:
+            done.touch()
+    locks = {}
+    mods = _MODS[:n]
+    procs = [_P(100 + i, mods[i], locks, script) for i in range(n)]
+    outcomes = [pick(o1, 2), pick(o2, 2), pick(o3, 2)][:n]
+    choices = [s0, s1, s2, s3, s4, s5, s6, s7, s8]
+    ok = True
+    succeeded = bool(pre_done)
+    k = 0
+    steps = 0
+    while steps < 40:
+        en = [p for p in procs if p.can_step()]
+        if not en:
+            break
+        if len(en) > 1 and k < len(choices):
+            p = en[pick(choices[k], len(en))]
+            k += 1
+        else:
+            p = en[0]
+        was = p.state
+        p.step(outcomes[procs.index(p)])
+        steps += 1
+        if p.state == "body" and was != "body":
+            # a body starts
+            if sum(1 for q in procs if q.state == "body") > 1:
+                rt.note("FAIL: the task body runs twice at the same time")
+                ok = False
+            if succeeded:
+                rt.note("FAIL: the task body runs again after the job succeeded")
+                ok = False
+        if was == "body" and p.state == "exited" and p.status == 0:
+            succeeded = True
+        rt.note(f"step {p.pid}: {was} -> {p.state}")
+    if any(p.state != "exited" for p in procs):
+        rt.note("FAIL: a process never ends", [p.state for p in procs])
+        ok = False
+    if done.is_file() and not succeeded:
+        ok = False
+    rt.scratch_cleanup()
+    return fin(ok)
+
+
+_MODS = []
+
+
+def _coroutine_modules():
+    from xv.harness import c10_markers as M10
+
+    while len(_MODS) < 3:
+        _MODS.append(M10.build_coroutine_module())
